@@ -168,6 +168,21 @@ func TestWorker(t *testing.T) {
 		for k, v := range out.Faults {
 			sum.Faults[k] += v
 		}
+		// scheduling faults of this run (what actually fired, not what was configured)
+		if out.Stats.Preemptions > 0 {
+			sum.Faults["sched:preemption-at-function-entry"] += int(out.Stats.Preemptions)
+		}
+		if pol := c.Base().Policy; out.Stats.Steps > 0 {
+			if pol.StarvePrefix != "" && out.Stats.Steps > pol.StarveFrom {
+				sum.Faults["sched:task-starvation-window(run)"]++
+			}
+			if pol.PermuteMaps {
+				sum.Faults["sched:map-order-permutation(run)"]++
+			}
+			if pol.Kind == "pct" {
+				sum.Faults["sched:pct-priority-schedule(run)"]++
+			}
+		}
 		if len(sum.SwitchPairs) < 50000 {
 			for k := range out.Stats.SwitchPairs {
 				sum.SwitchPairs[k] = true
